@@ -90,7 +90,9 @@ fn nest_doc(rng: &mut Rng, quick: bool) -> (DocSpec, &'static str) {
         ];
         let (prefix, item, second, label) = rng.pick(wide);
         let counts: &[u32] = if quick { &[300, 4_000, 32_000] } else { &[10, 300, 4_000, 16_000, 32_000] };
-        let n = rng.pick(counts);
+        // the first count sometimes passes the 16-bit limits (a counter or an
+        // index narrowed to u16/i16 by a change)
+        let n = if rng.chance(1, 5) { 70_000 } else { rng.pick(counts) };
         let m = if second.is_empty() { 0 } else { rng.pick(counts) };
         let suffix = rng.pick(&["", "", "tail", "<p>after</p>", "</table>"]);
         return (
